@@ -20,6 +20,9 @@ PLAN = {
     ("C08", "thorough"): [("exh2", 0), ("exh3", 0), ("samp", 6000), ("mid", 300)],
     ("C11", "quick"): [("exh2", 0), ("samp", 150), ("mid", 30)],
     ("C11", "thorough"): [("exh3", 0), ("samp", 4000), ("mid", 600)],
+    # C17 through the manual entry point (every session via create_sg_from_board)
+    ("C17", "quick"): [("samp", 120), ("mid", 20)],
+    ("C17", "thorough"): [("exh2", 0), ("samp", 3000), ("mid", 300)],
 }
 
 
@@ -40,7 +43,8 @@ def record(sessions, repo, solve):
     for s, (events, status) in zip(sessions, results):
         if status != "ok" or not events:
             raise common.MachineryError("harness failure in roborta session %s: %s" % (s["tid"], status))
-        s.update({k: events[0][k] for k in ("keys", "loaderr", "games", "exact", "raw", "outcomes")})
+        s.update({k: events[0][k] for k in ("keys", "loaderr", "games", "exact", "raw", "outcomes", "created")})
+        s.setdefault("via", "write")
 
 
 def validate(sessions, work, want, res):
@@ -50,7 +54,8 @@ def validate(sessions, work, want, res):
     jobs = []
     for i in range(nsh):
         path = os.path.join(work, "rob_%d.json" % i)
-        recs = [{k: s[k] for k in ("tid", "board", "probs", "keys", "loaderr", "games", "exact", "raw", "outcomes")}
+        recs = [{k: s[k] for k in ("tid", "board", "probs", "keys", "loaderr", "games", "exact", "raw", "outcomes",
+                                   "created", "via")}
                 for s in order[i::nsh]]
         obs.check_ints(recs)
         with open(path, "w") as f:
@@ -124,7 +129,7 @@ def run(prop, tier, seed, repo):
         for i, s in enumerate(sessions):
             s["tid"] = i + 1
             # half of the boards go through the manual entry point (C11)
-            s["via"] = "manual" if (prop == "C11" and i % 2 == 1) else "write"
+            s["via"] = "manual" if ((prop == "C11" and i % 2 == 1) or prop == "C17") else "write"
         t1 = time.time()
         record(sessions, repo, solve=False)
         t2 = time.time()
